@@ -1,7 +1,8 @@
 // C08 — I/O failures surface as errors that keep their root cause.
 // Fault enumeration: for every generated RTMP session (incl. handshake) and FLV
 // file, every cut offset 0..len and an injected transport error at every read
-// call and every write call index (with 0 or some bytes transferred alongside);
+// call and every write call index (with 0, some or all bytes transferred alongside,
+// persistent or one-shot: see faultwrite.go);
 // plus every nesting of the errors package's constructors up to depth 5.
 package main
 
@@ -106,6 +107,8 @@ type rtmpCase struct {
 	Mode  int      `json:"mode"`
 	Part2 int      `json:"partial"`
 	API   string   `json:"api"`
+	// OneShot (write side): only the one Write call fails; the transport accepts later calls (a transient fault)
+	OneShot bool `json:"oneshot,omitempty"`
 }
 
 // readSide replays the session's wire to a fresh reader with one fault.
@@ -213,13 +216,19 @@ func readSide(c *hl.Ctx, s *session, cs rtmpCase) {
 }
 
 // writeSide runs the session against a failing writer.
-func writeSide(c *hl.Ctx, s *session, failAt, partial int) {
+func writeSide(c *hl.Ctx, s *session, failAt, partial int, oneshot bool) {
 	c.Eval()
-	cs := rtmpCase{Part: "rtmp-write", Items: s.items, Fault: "inject", At: failAt, Part2: partial}
+	countWriteFault(c, oneshot)
+	cs := rtmpCase{Part: "rtmp-write", Items: s.items, Fault: "inject", At: failAt, Part2: partial, OneShot: oneshot}
 	l := rtmpx.NewLink()
-	l.FailWrite, l.Partial = failAt, partial
+	l.FailWrite, l.Partial, l.OneShot = failAt, partial, oneshot
 	p := rtmp.NewProtocol(rtmpx.End{In: rtmpx.NewLink(), Out: l})
-	desc := fmt.Sprintf("session %v, transport Write call %d fails after %d bytes", s.items, failAt, partial)
+	size := -1
+	if failAt < len(s.wsz) {
+		size = s.wsz[failAt]
+	}
+	feat := writeFaultFeature(oneshot, partial, size)
+	desc := fmt.Sprintf("session %v, %s", s.items, writeFaultDesc(failAt, partial, size, oneshot))
 	failed := false
 	for i, k := range s.items {
 		var err error
@@ -231,11 +240,11 @@ func writeSide(c *hl.Ctx, s *session, failAt, partial int) {
 		if l.WriteCalls > failAt {
 			// the failing call happened during (or before) this operation
 			if err == nil {
-				c.Violation("rtmp-write/nil-error", fmt.Sprintf("operation %d (%s) returned nil although the transport write failed; %s", i, k, desc), cs)
+				c.Violation(writeFaultKey(c, "rtmp-write/nil-error", feat), fmt.Sprintf("operation %d (%s) returned nil although the transport write failed while it was in progress; %s", i, k, desc), cs)
 				return
 			}
 			if errors.Cause(err) != rtmpx.ErrInjected {
-				c.Violation("rtmp-write/cause", fmt.Sprintf("operation %d (%s): errors.Cause(err) = %v, want the transport's error; err = %v; %s", i, k, errors.Cause(err), err, desc), cs)
+				c.Violation(writeFaultKey(c, "rtmp-write/cause", feat), fmt.Sprintf("operation %d (%s): errors.Cause(err) = %v, want the transport's error; err = %v; %s", i, k, errors.Cause(err), err, desc), cs)
 				return
 			}
 			failed = true
@@ -250,28 +259,10 @@ func writeSide(c *hl.Ctx, s *session, failAt, partial int) {
 		return // failAt beyond the session's writes
 	}
 	if !bytes.HasPrefix(s.wire, l.Data) {
-		c.Violation("rtmp-write/wire-not-prefix", fmt.Sprintf("the %d bytes that reached the wire before the failure are not a prefix of the fault-free stream (something duplicated, reordered or fabricated); %s", len(l.Data), desc), cs)
+		c.Violation(writeFaultKey(c, "rtmp-write/wire-not-prefix", feat), fmt.Sprintf("the %d bytes that reached the wire before the failure are not a prefix of the fault-free stream (something duplicated, reordered or fabricated); %s", len(l.Data), desc), cs)
 		return
 	}
 	c.Nontrivial(fmt.Sprint(cs))
-}
-
-type failRW struct {
-	r       io.Reader
-	failW   bool
-	partial int
-}
-
-func (f *failRW) Read(p []byte) (int, error) { return f.r.Read(p) }
-func (f *failRW) Write(p []byte) (int, error) {
-	if f.failW {
-		n := f.partial
-		if n > len(p) {
-			n = len(p)
-		}
-		return n, rtmpx.ErrInjected
-	}
-	return len(p), nil
 }
 
 func handshakeFaults(c *hl.Ctx) {
@@ -329,15 +320,7 @@ func handshakeFaults(c *hl.Ctx) {
 		{"WriteC2S2", func(h *rtmp.Handshake, w io.Writer) error { return h.WriteC2S2(w, blob) }},
 	}
 	for _, w := range writes {
-		for _, partial := range []int{0, 1, 700} {
-			c.Eval()
-			err := w.f(hs(), &failRW{failW: true, partial: partial})
-			if err == nil || errors.Cause(err) != rtmpx.ErrInjected {
-				c.Violation("handshake/write-cause", fmt.Sprintf("%s on a failing transport (after %d bytes): err = %v (cause %v)", w.name, partial, err, errors.Cause(err)), map[string]interface{}{"part": "handshake", "method": w.name})
-			} else {
-				c.Nontrivial(fmt.Sprint("hsw", w.name, partial))
-			}
-		}
+		handshakeWriteFaults(c, w.name, func(t io.Writer) error { return w.f(hs(), t) })
 	}
 }
 
@@ -392,10 +375,12 @@ func rtmpFaults(c *hl.Ctx, depth int, idx *int) {
 						readSide(c, s, rtmpCase{Part: "rtmp-read", Items: items, Fault: "inject", At: i, Part2: 2, Mode: 0, API: "ExpectPacket"})
 					}
 				}
-				// write side: every transport write call index x {0, 1, half} bytes transferred alongside
+				// write side: every transport write call index x {sticky, one-shot} x accepted counts alongside the error
 				for j := 0; j < len(s.wsz); j++ {
-					for _, part := range []int{0, 1, s.wsz[j] / 2} {
-						writeSide(c, s, j, part)
+					for _, oneshot := range []bool{false, true} {
+						for _, part := range acceptedCounts(c, s.wsz[j]) {
+							writeSide(c, s, j, part, oneshot)
+						}
 					}
 				}
 				if *idx%5 == 1 {
@@ -469,6 +454,8 @@ type flvCase struct {
 	At    int    `json:"at"`
 	Mode  int    `json:"mode"`
 	Part2 int    `json:"partial"`
+	// OneShot (write side): only the one Write call fails; the transport accepts later calls (a transient fault)
+	OneShot bool `json:"oneshot,omitempty"`
 }
 
 func flvRead(c *hl.Ctx, f *flvFile, cs flvCase) {
@@ -588,21 +575,27 @@ func flvRead(c *hl.Ctx, f *flvFile, cs flvCase) {
 	c.Nontrivial(fmt.Sprint(cs))
 }
 
-func flvWrite(c *hl.Ctx, f *flvFile, failAt, partial int) {
+func flvWrite(c *hl.Ctx, f *flvFile, failAt, partial int, oneshot bool) {
 	c.Eval()
-	cs := flvCase{Part: "flv-write", Tags: f.tags, Fault: "inject", At: failAt, Part2: partial}
+	countWriteFault(c, oneshot)
+	cs := flvCase{Part: "flv-write", Tags: f.tags, Fault: "inject", At: failAt, Part2: partial, OneShot: oneshot}
 	l := rtmpx.NewLink()
-	l.FailWrite, l.Partial = failAt, partial
+	l.FailWrite, l.Partial, l.OneShot = failAt, partial, oneshot
 	m, _ := flv.NewMuxer(l)
-	desc := fmt.Sprintf("file with tags %+v, transport Write call %d fails after %d bytes", f.tags, failAt, partial)
+	size := -1
+	if failAt < len(f.wsz) {
+		size = f.wsz[failAt]
+	}
+	feat := writeFaultFeature(oneshot, partial, size)
+	desc := fmt.Sprintf("file with tags %+v, %s", f.tags, writeFaultDesc(failAt, partial, size, oneshot))
 	check := func(op string, err error) bool {
 		if l.WriteCalls > failAt {
 			if err == nil {
-				c.Violation("flv-write/nil-error", op+" returned nil although the transport write failed; "+desc, cs)
+				c.Violation(writeFaultKey(c, "flv-write/nil-error", feat), op+" returned nil although the transport write failed while it was in progress; "+desc, cs)
 			} else if errors.Cause(err) != rtmpx.ErrInjected {
-				c.Violation("flv-write/cause", fmt.Sprintf("%s: errors.Cause(err) = %v, want the transport's error; %s", op, errors.Cause(err), desc), cs)
+				c.Violation(writeFaultKey(c, "flv-write/cause", feat), fmt.Sprintf("%s: errors.Cause(err) = %v, want the transport's error; %s", op, errors.Cause(err), desc), cs)
 			} else if !bytes.HasPrefix(f.wire, l.Data) {
-				c.Violation("flv-write/wire-not-prefix", "bytes on the wire are not a prefix of the fault-free file; "+desc, cs)
+				c.Violation(writeFaultKey(c, "flv-write/wire-not-prefix", feat), "bytes on the wire are not a prefix of the fault-free file; "+desc, cs)
 			} else {
 				c.Nontrivial(fmt.Sprint(cs))
 			}
@@ -647,8 +640,10 @@ func flvFaults(c *hl.Ctx, depth int, idx *int) {
 				}
 			}
 			for j := 0; j < len(f.wsz); j++ {
-				for _, part := range []int{0, 1, f.wsz[j] / 2} {
-					flvWrite(c, f, j, part)
+				for _, oneshot := range []bool{false, true} {
+					for _, part := range acceptedCounts(c, f.wsz[j]) {
+						flvWrite(c, f, j, part, oneshot)
+					}
 				}
 			}
 			if *idx%7 == 2 {
@@ -749,14 +744,15 @@ func errorsNestings(c *hl.Ctx, depth int) {
 }
 
 func run(c *hl.Ctx) {
-	c.Rule("fault enumeration: RTMP sessions = all item sequences <= d over {1/129/257/9000-byte video, 130-byte command with extended timestamp, user-control packet, Set Chunk Size 4096}; for each: every cut offset 0..len x {whole, 1-byte} reads, an injected error at every transport read call index x {0,3} bytes alongside, the same through ExpectMessage/ExpectPacket at item boundaries, an injected error at every transport write call index x {0,1,half} bytes alongside; all six handshake methods under cuts and injected errors; FLV files = all tag sequences <= d over 5 tags (sizes 0,1,255,256,40; timestamps around 2^24 and 2^32-1) under the same faults; errors package = every nesting of {WithStack, Wrap, Wrapf, WithMessage} up to depth 5 over 6 roots. Oracle: items returned before the failure are exactly the completely transferred ones and equal to what was written; non-nil error whose errors.Cause is the transport's error (identity) or io.EOF/io.ErrUnexpectedEOF for a cut; wire after a write failure is a prefix of the fault-free stream. Non-trivial = distinct (session, fault) case that satisfied every clause.")
-	c.Assume("an io.Writer that returns short without an error is a contract breach and not in the alphabet", "a cut inside the 4-byte PreviousTagSize after a complete FLV tag body is not judged either way", "item boundaries are the wire lengths observed after each fault-free write")
+	c.Rule("fault enumeration: RTMP sessions = all item sequences <= d over {1/129/257/9000-byte video, 130-byte command with extended timestamp, user-control packet, Set Chunk Size 4096}; for each: every cut offset 0..len x {whole, 1-byte} reads, an injected error at every transport read call index x {0,3} bytes alongside, the same through ExpectMessage/ExpectPacket at item boundaries, an injected error at every transport write call index x {persistent: later calls fail too, one-shot: later calls are accepted again} x accepted byte counts {0,1,2,half,len-2,len-1,len} of that call returned together with the error (thorough: every count for writes <= 16 bytes, extra interior counts for larger ones); all six handshake methods under cuts and injected errors, the three handshake writers under the same write-fault family; FLV files = all tag sequences <= d over 5 tags (sizes 0,1,255,256,40; timestamps around 2^24 and 2^32-1) under the same faults; errors package = every nesting of {WithStack, Wrap, Wrapf, WithMessage} up to depth 5 over 6 roots. Oracle: items returned before the failure are exactly the completely transferred ones and equal to what was written; non-nil error whose errors.Cause is the transport's error (identity) or io.EOF/io.ErrUnexpectedEOF for a cut; the operation during which a transport Write call returned an error returns a non-nil error with that cause whatever the accepted count and whether or not later calls succeed, and no earlier operation fails; wire after a write failure is a prefix of the fault-free stream. Non-trivial = distinct (session, fault) case that satisfied every clause.")
+	c.Assume("an io.Writer that returns short without an error is a contract breach and not in the alphabet", "a failing Write call may report any accepted count 0..len(p) together with its error (io.Writer contract), and the fault may be transient: the operation in progress must still report it", "after the operation that reported a write failure nothing further is judged (later operations on a one-shot-faulted transport are outside the statement)", "a cut inside the 4-byte PreviousTagSize after a complete FLV tag body is not judged either way", "item boundaries are the wire lengths observed after each fault-free write")
 	idx := 0
 	d := 3
 	if c.Thorough() {
 		d = 4
 	}
 	c.Info("sequence_depth", d)
+	c.Info("write_fault_alphabet", map[string]interface{}{"persistence": []string{"persistent", "oneshot"}, "accepted_counts_of_a_9000B_write": acceptedCounts(c, 9000), "accepted_counts_of_an_11B_write": acceptedCounts(c, 11)})
 	if c.Shard == 0 {
 		handshakeFaults(c)
 	}
@@ -781,7 +777,7 @@ func replay(c *hl.Ctx, raw json.RawMessage) {
 	case "rtmp-write":
 		var cs rtmpCase
 		json.Unmarshal(raw, &cs)
-		writeSide(c, buildSession(cs.Items), cs.At, cs.Part2)
+		writeSide(c, buildSession(cs.Items), cs.At, cs.Part2, cs.OneShot)
 	case "flv-read":
 		var cs flvCase
 		json.Unmarshal(raw, &cs)
@@ -789,7 +785,7 @@ func replay(c *hl.Ctx, raw json.RawMessage) {
 	case "flv-write":
 		var cs flvCase
 		json.Unmarshal(raw, &cs)
-		flvWrite(c, buildFLV(cs.Tags), cs.At, cs.Part2)
+		flvWrite(c, buildFLV(cs.Tags), cs.At, cs.Part2, cs.OneShot)
 	case "handshake":
 		handshakeFaults(c)
 	default:
